@@ -17,7 +17,9 @@ from props.common import scale, depth_of, schema_tags, load_corpus
 
 THEOREMS = ["c15_encode_eq_spec", "c15_core_is_spec", "c15_bytes_strings", "c15_read_back", "c15_machine_value",
             "c15_machine_json_writer", "c15_machine_emits_spec", "c15_machine_counterexample_empty_list",
-            "c15_machine_counterexample_zero_fields", "c15_machine_counterexample_depth3"]
+            "c15_machine_counterexample_zero_fields", "c15_machine_counterexample_depth3",
+            "c15_machine_json_reader", "c15_machine_reads_spec", "c15_machine_round_trip",
+            "c15_machine_counterexample_map_of_nested_records"]
 TARGETS = ["Properties.C15"]
 
 
